@@ -23,7 +23,13 @@ Init == /\ P = <<<<>>>> /\ T = <<Tree0>>
         /\ fv = <<[i \in DOMAIN Tree0 |-> 1]>> /\ fp = <<[i \in DOMAIN Tree0 |-> {}]>>
         /\ tip = [b \in Branches |-> 1] /\ wt = [b \in Branches |-> Tree0] /\ pm = [b \in Branches |-> 0]
         /\ ne = [b \in Branches |-> 0] /\ step = [a |-> "init", b |-> 0, r |-> 0]
-EditTo(b, t, name) == /\ ne[b] < MaxEdits /\ t # wt[b]
+\* a limitation of the working tree, not of the rule: an id that the basis lacks and the pending merge parent has must sit
+\* at the merge parent's path (re-adding it elsewhere makes the dirstate unusable: commit raises DirstateCorrupt)
+PathIn(t, f) == IF t[f].parent = "R" THEN <<t[f].name>> ELSE <<t[t[f].parent].name, t[f].name>>
+WtOk(b, t, basisRev, mergeRev) ==
+    IF mergeRev = 0 THEN TRUE
+    ELSE \A f \in DOMAIN t \ {DirId} : (f \notin DOMAIN T[basisRev] /\ f \in DOMAIN T[mergeRev]) => PathIn(t, f) = PathIn(T[mergeRev], f)
+EditTo(b, t, name) == /\ ne[b] < MaxEdits /\ t # wt[b] /\ WtOk(b, t, tip[b], pm[b])
                       /\ wt' = [wt EXCEPT ![b] = t] /\ ne' = [ne EXCEPT ![b] = @ + 1]
                       /\ step' = [a |-> name, b |-> b, r |-> 0]
                       /\ UNCHANGED <<P, T, fv, fp, tip, pm>>
@@ -48,6 +54,7 @@ Merge(b, r, takeOther) ==
     /\ r \in DOMAIN P /\ r \notin Ancestry(P, tip[b])
     /\ wt' = [wt EXCEPT ![b] = [i \in {j \in DOMAIN wt[b] \cup DOMAIN T[r] : IF j \in takeOther THEN j \in DOMAIN T[r] ELSE j \in DOMAIN wt[b]} |->
                                    IF i \in takeOther THEN T[r][i] ELSE wt[b][i]]]
+    /\ WtOk(b, wt'[b], tip[b], r)
     /\ pm' = [pm EXCEPT ![b] = r] /\ step' = [a |-> "merge", b |-> b, r |-> r]
     /\ UNCHANGED <<P, T, fv, fp, tip, ne>>
 Pull(b) == /\ pm[b] = 0 /\ wt[b] = T[tip[b]] /\ tip[b] # tip[Other(b)] /\ tip[b] \in Ancestry(P, tip[Other(b)])
